@@ -110,6 +110,24 @@ func c17Hook(kind string, args []any) {
 		if r.taken[in.Key] == nil {
 			r.taken[in.Key] = map[uint32]int{}
 		}
+		if !h.resend && r.taken[in.Key][idx] >= 1 {
+			// Second hand-out of a chunk. The entry snapshot cannot tell the two paths apart when
+			// the verdict lands between the snapshot and the method's lock (with mutex points the
+			// re-send may even be the *first* of the two), so the rule counts instead: the chunk
+			// that failed verification may go out once more than the others - once. Any further
+			// hand-out, or a second hand-out of any other chunk, is a violation.
+			if vc, ok := r.verifChunk[in.Key]; ok && int(idx) == vc {
+				already := false
+				for _, q := range r.handouts {
+					if q.key == in.Key && q.resend {
+						already = true
+					}
+				}
+				if !already {
+					h.resend = true
+				}
+			}
+		}
 		if !h.resend {
 			r.taken[in.Key][idx]++
 			if r.taken[in.Key][idx] > 1 {
